@@ -51,7 +51,7 @@ theorem allocRows_view (m : Mach) (rows : List (String × List Res)) :
       exact filterMap_alloc
     · exact ih m2
 
-theorem combineRows_spec (m : Mach) (d1 d2 : Dict) (v1 v2 : List (List Int)) (combos : List (List Int))
+theorem combineRows_spec (m : Mach) (d1 d2 : Dict) (v1 v2 : List (List Rat)) (combos : List (List Rat))
     (names : List String) (rows : List (String × List Res))
     (h : combineRows m d1 d2 v1 v2 combos names = .ok rows) :
     rows.map (·.1) = names ∧
